@@ -148,6 +148,29 @@ Proof.
     eexists; eexists; (split; [vm_compute; reflexivity|]); vm_compute; repeat split.
 Qed.
 
+(* ---------------- a finding: rho together with initial_recovereds ----------------
+   "The given initially recovered nodes are R (and are never infected later)" and the counts of
+   C04 FAIL for discrete_SIR (hence basic_discrete_SIR, percolation_based_discrete_SIR) when rho is
+   given together with initial_recovereds: random.sample(list(G), n) draws among ALL nodes, an
+   initially recovered node may be drawn as initially infected, row 0 counts it twice and S goes
+   negative / R exceeds N.  (fast_SIR and fast_nonMarkov_SIR reject this argument combination
+   with EoNError; Gillespie_SIR accepts it and can raise KeyError.)  Witness: the path 0-1-2-3,
+   every contact succeeds, initial_recovereds = [0;1], rho = 1/2, the sample [1;2]:
+   rows (0,[0;2;2]), (1,[-1;1;4]), (2,[-1;0;5]).  Reproduced on the code (harness/discx.py
+   [probe_rho_r0], proposed_known_findings.json).  The theorems above quantify over explicit,
+   disjoint initial sets ([wf_inputb]); [C05_discrete_SIR_rho_selects_round_N_rho_distinct_nodes]
+   says precisely which explicit set a rho run starts from -- it need not be disjoint from R0. *)
+Definition path4_adj (u : node) : list node :=
+  match u with 0%N => [1]%N | 1%N => [0; 2]%N | 2%N => [1; 3]%N | 3%N => [2]%N | _ => [] end.
+Definition path4 : graph := mkGraph [0; 1; 2; 3]%N path4_adj path4_adj false (fun _ _ => 1) (fun _ => 1) false false.
+
+Theorem C05_discrete_SIR_rho_respects_initial_recovereds_refuted :
+  exists o tr, exec (discrete_SIR path4 (det_rules (fun _ _ _ => true) (fun _ _ => O)) None (fun _ l => l) None (Some [0; 1]%N) (Some (1 # 2)) 0 None false 9) [1] [] = (Ok o, tr) /\
+    map snd (so_rows (o_sim o)) = [[0; 2; 2]; [-1; 1; 4]; [-1; 0; 5]]%Z /\
+    dwf_rowsb true true path4 0 None (so_rows (o_sim o)) = false.
+Proof. eexists. eexists. split; [vm_compute; reflexivity|]. vm_compute. split; reflexivity. Qed.
+Print Assumptions C05_discrete_SIR_rho_respects_initial_recovereds_refuted.
+
 Print Assumptions C05_discrete_SIR_row0_is_the_request.
 Print Assumptions C05_basic_discrete_SIS_row0_is_the_request.
 Print Assumptions C05_discrete_SIR_initial_statuses.
